@@ -64,8 +64,16 @@ func raceScenario(s *Sim, params map[string]string) {
 		p := cl.Part("rx", pi)
 		genLog(t, cl, p, LayoutOpts{Magics: []int8{2}, Codecs: []int8{0, 1, 2, 3, 4}, Headers: true, Stream: "layout"}, 0, t.Range("layout", 2, 10), fmt.Sprintf("rx%d-", pi))
 	}
-	if t.Intn("cfg", 3) == 0 {
+	switch t.Intn("cfg", 4) {
+	case 0:
 		cl.F = FaultCfg{CutAfterApply: 30, CutInResponse: 30, Slow: 60, ErrorCode: 40, SlowMin: 10 * time.Millisecond, SlowMax: 300 * time.Millisecond, Until: 3 * time.Second}
+	case 1:
+		// brokers that accept a request and stay silent: attempts end on the
+		// client's own time-outs while the request is still held by the connection
+		cl.F = FaultCfg{Stall: 350, StallReset: 2 * time.Second, ErrorCode: 50, APIs: map[int16]bool{0: true, 1: true, 2: true, 8: true, 9: true}, Until: 3 * time.Second}
+	}
+	if params["force"] == "silent-produce" {
+		cl.F = FaultCfg{Stall: 1000, StallReset: 2 * time.Second, APIs: map[int16]bool{0: true}, Until: 3 * time.Second}
 	}
 	program := Pick(t, "cfg", "writer", "reader", "group", "conn", "client", "balancers", "codecs", "batch")
 	if v, ok := params["program"]; ok {
@@ -101,7 +109,8 @@ func raceScenario(s *Sim, params map[string]string) {
 		}
 		var completions atomic.Int64
 		w := &kafka.Writer{Addr: kafka.TCP(addr), Transport: tr, Balancer: bal, BatchSize: Pick(t, "cfg", 1, 3, 100), BatchTimeout: Pick(t, "cfg", time.Millisecond, 20*time.Millisecond),
-			Async: t.Intn("cfg", 3) == 0, MaxAttempts: 3, WriteTimeout: 2 * time.Second, ReadTimeout: 2 * time.Second, RequiredAcks: kafka.RequireOne,
+			Async: t.Intn("cfg", 3) == 0, MaxAttempts: Pick(t, "cfg", 1, 3, 4), WriteTimeout: Pick(t, "cfg", 2*time.Second, 150*time.Millisecond), ReadTimeout: 2 * time.Second, RequiredAcks: kafka.RequireOne,
+			WriteBackoffMin: 10 * time.Millisecond, WriteBackoffMax: 50 * time.Millisecond,
 			Compression: kafka.Compression(t.Intn("cfg", 5)), Logger: logf, ErrorLogger: logf,
 			Completion: func(msgs []kafka.Message, err error) { completions.Add(int64(len(msgs))) }}
 		multi := t.Intn("cfg", 2) == 0
